@@ -10,6 +10,7 @@ from vlib import pgen, ref
 from vlib.harness import SubCheck, must, must_raise, require
 
 PROPERTY_ID = "C16"
+TECHNIQUE = 'exhaustive Pauli strings (<=3 qubits) + property-based testing (Hypothesis) against scipy expm and an analytic product-rule derivative'
 RULE = (
     "Exhaustive: all 84 Pauli strings on <= 3 qubits x 5 (coefficient, time) pairs. Random: strings on "
     "<= 4 qubits with gaps, real coefficients (ints / floats, complex type with zero imaginary part) and "
